@@ -404,6 +404,64 @@ Definition enc_post_res (body : bytes) (k : Z) (r : post_res) : list Z :=
   | PAssert => [3%Z]
   end.
 
+(* BytesIOProxy.seek(pos, whence) (multipart.py:357); returns the new tell(), or
+   None for an unknown whence (ValueError) *)
+Definition proxy_seek_set (p : proxy) (pos : Z) : proxy :=
+  let pos := if (pos <? 0)%Z then 0%Z else pos in
+  mkProxy (p_st p) (p_end p) (Z.min (p_st p + pos) (p_end p)).
+
+Definition proxy_tell (p : proxy) : Z := (p_pos p - p_st p)%Z.
+
+Definition proxy_seek (p : proxy) (pos whence : Z) : option proxy :=
+  match whence with
+  | 0%Z => Some (proxy_seek_set p pos)                                        (* SEEK_SET *)
+  | 1%Z => Some (proxy_seek_set p (proxy_tell p + pos))                       (* SEEK_CUR *)
+  | 2%Z => Some (proxy_seek_set p (p_end p + pos - p_st p))                   (* SEEK_END *)
+  | _ => None
+  end.
+
+(* a script of file operations on one upload: read(n) (n < 0: read()), seek, tell *)
+Inductive fop := ORead (n : Z) | OSeek (pos whence : Z) | OTell.
+
+Fixpoint proxy_run (body : bytes) (p : proxy) (ops : list fop) : list Z :=
+  match ops with
+  | [] => []
+  | ORead n :: r =>
+    let (b, p') := proxy_read body p (if (n <? 0)%Z then None else Some n) in
+    0%Z :: enc_str b ++ proxy_run body p' r
+  | OSeek pos wh :: r =>
+    match proxy_seek p pos wh with
+    | Some p' => 1%Z :: proxy_tell p' :: proxy_run body p' r
+    | None => 2%Z :: proxy_run body p r
+    end
+  | OTell :: r => 1%Z :: proxy_tell p :: proxy_run body p r
+  end.
+
+Definition dec_fop (l : list Z) : option (fop * list Z) :=
+  match l with
+  | 0%Z :: n :: r => Some (ORead n, r)
+  | 1%Z :: pos :: wh :: r => Some (OSeek pos wh, r)
+  | 2%Z :: r => Some (OTell, r)
+  | _ => None
+  end.
+
+Definition item_run (body : bytes) (ops : list fop) (it : item) : list (list Z) :=
+  match it with
+  | IFile _ _ _ w => [proxy_run body (proxy_open w) ops]
+  | IText _ => []
+  end.
+
+Definition enc_runs (body : bytes) (ops : list fop) (r : post_res) : list Z :=
+  match r with
+  | POk d =>
+    enc_list (fun x => Z.of_nat (length x) :: x)
+             (flat_map (fun kv => match snd kv with
+                                  | Single x => item_run body ops x
+                                  | Multi xs => flat_map (item_run body ops) xs
+                                  end) (d_files d))
+  | _ => []
+  end.
+
 (* block-wise reading of one upload: file.read(blk) until it returns b''.  Each
    BytesIOProxy.read positions the shared source itself (src.seek(self._pos)), so
    reads through several windows — and through Request.body — may be interleaved
@@ -437,14 +495,17 @@ Definition enc_blocks (body : bytes) (blk : Z) (r : post_res) : list Z :=
   | _ => []
   end.
 
-(* input: max_memfile ; k ; blk ; B (len-prefixed) ; body (len-prefixed) *)
+(* input: max_memfile ; k ; blk ; B (len-prefixed) ; body (len-prefixed) ; file-operation script *)
 Definition corr_C07 (inp : list Z) : list Z :=
   match inp with
   | mem :: k :: blk :: r =>
     match dec_str r with
     | Some (B, r1) =>
       match dec_str r1 with
-      | Some (body, _) => let res := post B body mem in enc_post_res body k res ++ enc_blocks body blk res
+      | Some (body, r2) =>
+        let ops := match dec_list dec_fop r2 with Some (o, _) => o | None => [] end in
+        let res := post B body mem in
+        enc_post_res body k res ++ enc_blocks body blk res ++ enc_runs body ops res
       | None => bad_input
       end
     | None => bad_input
